@@ -539,12 +539,42 @@ def _np_all(interp, a, axis=None):
 # expressible directly; a reduction therefore returns an opaque "Reduction" term whose
 # properties come from named lemmas.  (Filled in by contract files that need it.)
 
+def _columns(a, axis):
+    """reduction of a 2-d array along axis -> 1-d SArr of the per-row/column reduction inputs"""
+    if a.ndim == 2 and axis in (0, -2):
+        n, m_ = a.shape
+        f = a.fn
+        return m_, n, (lambda j: SArr((n,), lambda i: f(i, j), a.dtype))
+    if a.ndim == 2 and axis in (1, -1):
+        n, m_ = a.shape
+        f = a.fn
+        return n, m_, (lambda i: SArr((m_,), lambda j: f(i, j), a.dtype))
+    raise OutsideSubset("reduction axis %r of %d-d array" % (axis, a.ndim))
+
+
 def np_sum(a, axis=None):
-    raise OutsideSubset("sum reduction of a symbolic array (use a contract-level spec)")
+    """np.sum == SUM(a, n) (trusted link to the specification function of pyvc.sumtheory)"""
+    from . import sumtheory
+    c = sym.ctx()
+    if isinstance(a, Sym):
+        return a
+    if a.ndim == 1 and axis in (None, 0, -1):
+        return sumtheory.ssum(c, a)
+    if a.ndim == 2 and axis is None:
+        raise OutsideSubset("full reduction of a 2-d symbolic array")
+    count, length, col = _columns(a, axis)
+    return SArr((count,), lambda j: sumtheory.ssum(c, col(j)), "real")
 
 
 def np_mean(a, axis=None):
-    raise OutsideSubset("mean reduction of a symbolic array")
+    if isinstance(a, Sym):
+        return a
+    if a.ndim == 1 and axis in (None, 0, -1):
+        return np_sum(a) / a.shape[0]
+    count, length, col = _columns(a, axis)
+    s = np_sum(a, axis)
+    f = s.fn
+    return SArr(s.shape, lambda j: f(j) / length, "real")
 
 
 def np_min(a, axis=None):
@@ -553,6 +583,22 @@ def np_min(a, axis=None):
 
 def np_max(a, axis=None):
     raise OutsideSubset("max reduction of a symbolic array")
+
+
+@model(np.sum)
+def _np_sum(interp, a, axis=None, **kw):
+    if not deep_sym(a):
+        return np.sum(a, axis=axis, **kw)
+    interp.trusted_used.add("model:np.sum == SUM spec function")
+    return np_sum(to_sarr(a), axis)
+
+
+@model(np.mean, np.nanmean)
+def _np_mean(interp, a, axis=None, **kw):
+    if not deep_sym(a):
+        return np.mean(a, axis=axis, **kw)
+    interp.trusted_used.add("model:np.mean/np.nanmean == SUM/n (no NaN under A2)")
+    return np_mean(to_sarr(a), axis)
 
 
 @model(np.where)
@@ -854,18 +900,21 @@ def intrinsic(interp, f, args, kwargs, node, frame):
     if n == "uf":
         name, arity = args[0], (args[1] if len(args) > 1 else 1)
         rng = kwargs.get("range", "real")
-        srt = {"real": z3.RealSort(), "int": z3.IntSort(), "bool": z3.BoolSort()}[rng]
-        func = z3.Function(name, *([z3.RealSort()] * arity + [srt]))
+        dom = kwargs.get("domain", "real")
+        sorts = {"real": z3.RealSort(), "int": z3.IntSort(), "bool": z3.BoolSort()}
+        func = z3.Function(name, *([sorts[dom]] * arity + [sorts[rng]]))
         impl = kwargs.get("impl")
+        conv = sym.to_real if dom == "real" else (lambda e: e)
 
         def call(*xs):
             if not deep_sym(xs) and impl is not None and interp.concrete:
                 return impl(*xs)
             if any(isinstance(x, SArr) for x in xs):
-                return sym.elementwise(lambda *ys: Sym(func(*[sym.to_real(lift(y)) for y in ys])), list(xs), rng)
-            return Sym(func(*[sym.to_real(lift(x)) for x in xs]))
+                return sym.elementwise(lambda *ys: Sym(func(*[conv(lift(y)) for y in ys])), list(xs), rng)
+            return Sym(func(*[conv(lift(x)) for x in xs]))
         call.__name__ = name
         call.__pyvc_native__ = True
+        call.z3func = func
         return call
     if n == "use_axiom":
         name = args[0]
@@ -874,9 +923,60 @@ def intrinsic(interp, f, args, kwargs, node, frame):
             raise OutsideSubset("unknown axiom %s" % name)
         if interp.concrete:
             return None
-        inst = ax(*[lift(a) if not callable(a) else a for a in args[1:]])
+        from . import sumtheory
+        zargs = []
+        for a in args[1:]:
+            if isinstance(a, SArr):
+                zargs.append(sumtheory.materialize(ctx, a))
+            elif hasattr(a, "z3func"):
+                zargs.append(a.z3func)
+            elif callable(a):
+                zargs.append(a)
+            else:
+                zargs.append(lift(a))
+        inst = ax(*zargs)
         interp.trusted_used.add("axiom:" + name)
         ctx.assume(inst)
+        return None
+    if n == "use_lemma":
+        if interp.concrete:
+            return None
+        from . import sumtheory
+        sumtheory.use_lemma(interp, args[0], list(args[1:]))
+        return None
+    if n == "ssum":
+        # ssum(n, lambda i: term): the specification-level finite sum
+        length, body = args
+        if interp.concrete:
+            return sum(interp.call_value(body, [i], {}) for i in range(int(length)))
+        from . import sumtheory
+        arr = SArr((length,), _spec_closure(interp, body), "real")
+        return sumtheory.ssum(ctx, arr)
+    if n == "array_of":
+        length, body = args
+        if interp.concrete:
+            return np.array([interp.call_value(body, [i], {}) for i in range(int(length))])
+        return SArr((length,), _spec_closure(interp, body), kwargs.get("dtype", "real"))
+    if n == "pointwise":
+        # forall-introduction: prove fact(g) for a fresh generic index g, then assume forall i. fact(i)
+        length, body = args
+        label = kwargs.get("id", "L%s" % getattr(node, "lineno", "?"))
+        if interp.concrete:
+            ok = all(bool(interp.call_value(body, [i], {})) for i in range(int(length)))
+            ctx.ghost.setdefault("replay_results", []).append(("pointwise:" + label, ok))
+            return None
+        f = _spec_closure(interp, body)
+        g = ctx.fresh("g", "int")
+        ctx.assume(z3.And(g.e >= 0, g.e < lift(length)))
+        thm = ctx.ghost.get("thm_label", "thm")
+        ctx.oblige("%s/pointwise:%s" % (thm, label), f(g), clause=_src(node), kind="thm")
+        q = z3.Int(ctx.fresh_name("q"))
+        ctx.bound_depth = getattr(ctx, "bound_depth", 0) + 1
+        try:
+            b = f(Sym(q))
+        finally:
+            ctx.bound_depth -= 1
+        ctx.assume(z3.ForAll([q], z3.Implies(z3.And(q >= 0, q < lift(length)), sym.truth(b))))
         return None
     if n == "old":
         return args[0]
@@ -895,6 +995,18 @@ def intrinsic(interp, f, args, kwargs, node, frame):
             ctx.spec_mode = saved
         return False
     raise OutsideSubset("intrinsic %s" % n)
+
+
+def _spec_closure(interp, body):
+    """call a specification lambda as a formula builder (no forking, no safety obligations)"""
+    def f(*idx):
+        c = interp.ctx
+        c.spec_mode += 1
+        try:
+            return interp.call_value(body, list(idx), {})
+        finally:
+            c.spec_mode -= 1
+    return f
 
 
 def _src(node):
